@@ -38,6 +38,10 @@ def widen_c01(steps):
         if s["op"] == "write_exec_d":
             # re-arrange the programs using the layer's own exec.d files as sources (swap): whatever happens must not depend on the process
             out.append({"op": "write_exec_d", "name": s["name"], "programs": [["p1", "@layer/exec.d/p2"], ["p2", "@layer/exec.d/p1"], ["p3", "p3"]], "swap": True})
+            # ... the same names again, one of them from another source of the same size (the three processes see sources dated 1980, now and 2100:
+            # which content ends up installed does not depend on how old the source file looks)
+            out.append({"op": "write_exec_d", "name": s["name"], "programs": [["p1", "p1"], ["p2", "p2"]], "swap": True})
+            out.append({"op": "write_exec_d", "name": s["name"], "programs": [["p1", "p1b"], ["p2", "p2"]], "swap": True})
             # ... and a replace that fails (one source does not exist): what a failed call leaves behind is the same in every process too
             out.append({"op": "write_exec_d", "name": s["name"], "programs": [["p1", "p1"], ["gone", "no-such-source"], ["p3", "p3"]], "swap": True})
     steps[:] = out
